@@ -141,7 +141,7 @@ void harness (void)
   int i;
   static main_options_t opts;
   verif_in_init ();
-  g_main_options = &opts; opts.timer_flags = TIMER_FLAG_HEARTBEAT;
+  g_main_options = &opts; opts.timer_flags = TIMER_FLAG_HEARTBEAT | TIMER_FLAG_RESET | TIMER_FLAG_CALLOUT;   /* all periodic tasks on (stubs.c) */
   __CPROVER_assume (IN.n == NFIX);
   IN.n = NFIX;
   /* the first object called in the round is concrete per run (FIRST): the earlier entries are not due or have no function */
